@@ -69,6 +69,7 @@ type Result struct {
 	Sites      map[string]int
 	Viol       []Violation
 	violSeen   map[string]bool
+	violCount  map[string]int
 	Covers     map[string]int
 	Funcs      map[string]int
 	Asserts    map[string]int // label -> times discharged (unsat)
@@ -576,10 +577,19 @@ func (sh *runShared) addViol(v Violation) {
 	sh.res.mu.Lock()
 	defer sh.res.mu.Unlock()
 	key := v.Kind + "|" + v.Label + "|" + v.Site
-	if sh.res.violSeen[key] {
+	// distinct Choose prefixes (e.g. the procedure under test) are distinct findings, up to 12 per label
+	ck := key
+	for i, c := range v.Choices {
+		if i >= 2 {
+			break
+		}
+		ck += fmt.Sprintf("|%d", c)
+	}
+	if sh.res.violSeen[ck] || sh.res.violCount[key] >= 12 {
 		return
 	}
-	sh.res.violSeen[key] = true
+	sh.res.violSeen[ck] = true
+	sh.res.violCount[key]++
 	sh.res.Viol = append(sh.res.Viol, v)
 }
 
@@ -625,7 +635,7 @@ func (sh *runShared) get() (job, bool) {
 // RunHarness explores all paths of fn with cfg.Workers workers.
 func RunHarness(prog *ssa.Program, fn *ssa.Function, name string, cfg *Config) *Result {
 	res := &Result{Harness: name, Outcomes: map[string]int{}, Sites: map[string]int{}, Covers: map[string]int{},
-		Funcs: map[string]int{}, Asserts: map[string]int{}, KnownHit: map[string]int{}, violSeen: map[string]bool{}, QSites: map[string][3]float64{}}
+		Funcs: map[string]int{}, Asserts: map[string]int{}, KnownHit: map[string]int{}, violSeen: map[string]bool{}, violCount: map[string]int{}, QSites: map[string][3]float64{}}
 	sh := &runShared{prog: prog, fn: fn, cfg: cfg, res: res, stubs: allStubs()}
 	sh.cond = sync.NewCond(&sh.mu)
 	sh.nwork = cfg.Workers
